@@ -97,6 +97,19 @@ func c04Parse(w *c04World) wire.ParseFn {
 				}
 				return fmt.Errorf("runaway")
 			}, wire.WithColumns(copyCols))), nil
+		case strings.HasPrefix(q, "typedparams"):
+			// the handler takes the placeholder list of the documented helper and fills in the types it knows for the
+			// connected user (its own copy of the list, as far as it can tell)
+			ps := wire.ParseParameters(q)
+			if strings.HasSuffix(string(wire.ClientParameters(ctx)["user"]), "1") {
+				for i := range ps {
+					ps[i] = oid.T_int4
+				}
+			}
+			return wire.Prepared(wire.NewStatement(func(ctx context.Context, dw wire.DataWriter, params []wire.Parameter) error {
+				w.ev("typedparams stmt, %d parameters", len(params))
+				return dw.Complete("TYPED")
+			}, wire.WithParameters(ps))), nil
 		case strings.HasPrefix(q, "sentinel"):
 			// an application-wide error value (one per server) that handlers return as it is or refine with a
 			// detail of their own: refining it for one connection must not change what another one reports
@@ -975,7 +988,49 @@ func c04RawLen(tier string) int {
 	return 4
 }
 
+// c04RunCopyOversized: inside a binary COPY a CopyData message larger than the limit arrives in the middle of a row
+// (the row began in the message before it and would end in the message after it). Whatever the server does with
+// the oversized message, the rows the handler receives are a prefix of the rows an independent decoder reads from
+// ALL the bytes the client sent - no row is assembled from the pieces around a message that was thrown away.
+func c04RunCopyOversized(over int, cutInside string) explore.Result {
+	var res explore.Result
+	res.Outcome = "whole-session"
+	res.Key = fmt.Sprint("copy-oversized", over, cutInside)
+	row1 := pgproto.BinaryCopyTuple([][]byte{{0, 0, 0, 7}, []byte("seven")})
+	row2 := pgproto.BinaryCopyTuple([][]byte{{0, 0, 0, 8}, []byte("BBBBBBBB")})
+	cut := map[string]int{"the field count": 1, "the first length word": 4, "the int4 value": 8, "the second length word": 12, "the text value": 16}[cutInside]
+	first := pgproto.Cat(pgproto.BinaryCopyHeader(), row1, row2[:cut])
+	big := append(append([]byte(nil), row2[cut:]...), bytes.Repeat([]byte("D"), c04Limit+over)...)
+	last := pgproto.Cat([]byte{0, 2, 0, 0, 0, 4, 0, 0, 0, 9, 0, 0, 0, 2, 'Z', 'Z'}, pgproto.BinaryCopyTrailer())
+	stream := pgproto.Cat(pgproto.Startup("user", "u"), pgproto.Query("copyb"), pgproto.CopyData(first), pgproto.CopyData(big), pgproto.CopyData(last), pgproto.CopyDone(), pgproto.Query(progRows))
+	o := c04Run(false, c04Feed{Stream: stream}, false)
+	if o.engine != "" {
+		res.Engine = o.engine
+		return res
+	}
+	want := refDecodeBinaryCopy(pgproto.Cat(first, big, last))
+	var got []string
+	for _, e := range o.events {
+		if strings.HasPrefix(e, "row ") {
+			got = append(got, e[4:])
+		}
+	}
+	if !isPrefix(got, want) {
+		res.Fail("fabricated-row", fmt.Sprintf("a binary COPY whose second row is cut inside %s by a CopyData message of %d bytes (limit %d): the handler received the rows %.200v; an independent decoder reads %.200v from the bytes the client sent", cutInside, len(big), c04Limit, got, want))
+	}
+	return res
+}
+
 func c04Enumerate(tier string, emit explore.Emit) {
+	for _, over := range []int{1, 100, 2000} {
+		for _, cutInside := range []string{"the field count", "the first length word", "the int4 value", "the second length word", "the text value"} {
+			over, cutInside := over, cutInside
+			emit(explore.Case{Family: "whole-session", Size: 2, Desc: func() any {
+				return map[string]any{"session": "binary COPY with an oversized CopyData in the middle of a row", "row_cut_inside": cutInside, "oversized_by": over}
+			},
+				Run: func() explore.Result { return c04RunCopyOversized(over, cutInside) }})
+		}
+	}
 	// the configured limit bounds what a client can make the server buffer on an upgraded (TLS) connection too:
 	// C11's sized sessions (Query / Bind bodies around the limit, differential against the plaintext session)
 	for _, c := range c11SizedCases([]int{1024, 8192}) {
